@@ -224,6 +224,28 @@ pub fn random_histories(cx: &mut Ctx, n: usize) {
 }
 
 pub fn c09(cx: &mut Ctx) {
+    // permitted, if pointless: the complete head presented to try_response several times before advancing (a
+    // caller that re-parses on every socket read), and the refusal looked at several times while awaiting
+    for (req, expect) in [("GET HTTP/1.1 http://a.test/ 0", false), ("POST HTTP/1.0 http://a.test/ 3 connection 636c6f7365 expect 3130302d636f6e74696e7565 content-length 33", true), ("POST HTTP/1.1 http://a.test/ 2 expect 3130302d636f6e74696e7565 content-length 33", true)] {
+        for head in ["HTTP/1.1 200 OK\r\nConnection: close\r\nContent-Length: 0\r\n\r\n", "HTTP/1.0 403 No\r\nConnection: close\r\n\r\n", "HTTP/1.1 302 F\r\nLocation: /n\r\nconnection: close\r\nContent-Length: 0\r\n\r\n"] {
+            for times in [1usize, 2, 6, 8] {
+                cx.case("again");
+                if cx.rec.new_flow(req) != "ok" { continue; }
+                cx.op("proceed"); cx.op("write 4096"); cx.op("proceed");
+                if expect {
+                    if cx.rec.state() != "await100" { continue; }
+                    for _ in 0..times.min(3) { cx.op(&format!("read100 {}", hx(head.as_bytes()))); cx.op("keep100"); }
+                    cx.op("proceed");
+                }
+                if cx.rec.state() != "recvResponse" { continue; }
+                for _ in 0..times { cx.op(&format!("resp {}", hx(head.as_bytes()))); cx.op("canproceed"); }
+                cx.op("proceed");
+                if cx.rec.state() == "recvBody" { cx.op(&format!("bread {} 100", hx(b"tail"))); cx.op("canproceed"); cx.op("proceed"); }
+                if cx.rec.state() == "redirect" { cx.op("status"); cx.op("close?"); cx.op("proceed"); }
+                cx.op("close?"); cx.op("reason");
+            }
+        }
+    }
     // exhaustive short histories over a small menu: every op of every state, incl. premature advance
     let reqs = ["GET HTTP/1.1 http://a.test/ 0", "POST HTTP/1.1 http://a.test/ 1 content-length 33",
                 "PUT HTTP/1.1 http://a.test/ 1 expect 3130302d636f6e74696e7565", "HEAD HTTP/1.0 http://a.test/ 0",
